@@ -67,21 +67,22 @@ pub(crate) trait MCTPControlMessageRequest {
             CommandCode::GetMCTPVersionSupport => 5,
             CommandCode::GetMessageTypeSupport => 0,
             CommandCode::GetVendorDefinedMessageSupport => 0,
-            CommandCode::ResolveEndpointID => unimplemented!(),
+            // We don't know the length of these responses, so we can't check it
+            CommandCode::ResolveEndpointID => 0,
             CommandCode::AllocateEndpointIDs => 4,
             CommandCode::RoutingInformationUpdate => 1,
-            CommandCode::GetRoutingTableEntries => unimplemented!(),
-            CommandCode::PrepareForEndpointDiscovery => unimplemented!(),
-            CommandCode::EndpointDiscovery => unimplemented!(),
-            CommandCode::DiscoveryNotify => unimplemented!(),
-            CommandCode::GetNetworkID => unimplemented!(),
-            CommandCode::QueryHop => unimplemented!(),
-            CommandCode::ResolveUUID => unimplemented!(),
-            CommandCode::QueryRateLimit => unimplemented!(),
-            CommandCode::RequestTXRateLimit => unimplemented!(),
-            CommandCode::UpdateRateLimit => unimplemented!(),
-            CommandCode::QuerySupportedInterfaces => unimplemented!(),
-            CommandCode::Unknown => unimplemented!(),
+            CommandCode::GetRoutingTableEntries => 0,
+            CommandCode::PrepareForEndpointDiscovery => 0,
+            CommandCode::EndpointDiscovery => 0,
+            CommandCode::DiscoveryNotify => 0,
+            CommandCode::GetNetworkID => 0,
+            CommandCode::QueryHop => 0,
+            CommandCode::ResolveUUID => 0,
+            CommandCode::QueryRateLimit => 0,
+            CommandCode::RequestTXRateLimit => 0,
+            CommandCode::UpdateRateLimit => 0,
+            CommandCode::QuerySupportedInterfaces => 0,
+            CommandCode::Unknown => 0,
         }
     }
 }
